@@ -58,17 +58,23 @@ var genericVals = []string{"", "x", "a b", `a"b`, "a'b", "<b>", "&amp;", "&#x6a;
 var urlSamples = []string{"http://example.com/", "https://example.org/a?b=c&d=e", "//cdn.example/x.png", "/rel/path",
 	"rel.html", "#frag", "?q=1", "mailto:a@b.c", "ftp://f.example/x", "javascript:alert(1)", "JaVaScRiPt:alert(1)",
 	" http://sp.example/ ", "http://a b/", "data:image/png;base64,iVBORw0KGgo=", "data:text/html;base64,PHNjcmlwdD4=",
-	"data:image/gif;base64,R0lG\nODlh", "app://open/x", "tel:+123", "http://good.example/p/x?y=1", "http://bad.example/",
+	"data:image/gif;base64,R0lG\nODlh", "data:image/png;base64,iVBOR!!", "data:image/jpeg;base64,/9j/4AAQ", "data:image/png;base64,AAA",
+	"data:image/png;base64,iVBORw0KGgo=#frag", "app://open/x", "tel:+123", "http://good.example/p/x?y=1", "http://bad.example/",
 	"http://[::1]:80/", "http://%zz/", ":bad", "HTTP://UP.example/", "http://u:p@h.example/?a=1&amp;b=<2>", "https://good.example/p/"}
 
 var schemes = []string{"http", "https", "mailto", "ftp", "tel", "data", "app", "javascript"}
 
 var urlPolicyNames = []string{"true", "false", "noquery", "host=good.example", "host=example.com", "pathprefix=/p/"}
 
-var styleProps = []string{"color", "background-color", "font-size", "text-align", "width", "margin", "x-prop", "float"}
-var defaultHandledProps = []string{"color", "background-color", "font-size", "text-align", "width", "margin", "float"}
+var styleProps = []string{"color", "background-color", "font-size", "text-align", "width", "margin", "x-prop", "float",
+	"font", "border", "padding", "background", "outline", "list-style", "border-top", "text-decoration"}
+var defaultHandledProps = []string{"color", "background-color", "font-size", "text-align", "width", "margin", "float",
+	"font", "border", "padding", "background", "outline", "list-style", "border-top", "text-decoration"}
 var styleVals = []string{"red", "#fff", "12px", "center", "50%", "url(http://x.example/y.png)", "expression(alert(1))",
-	"r\\65 d", "javascript:x", "1", "123456789", "bold", "left", "blue", "RED", "12PX"}
+	"r\\65 d", "javascript:x", "1", "123456789", "bold", "left", "blue", "RED", "12PX",
+	// shorthand values of four and more tokens
+	"1px 2px 3px 4px", "italic bold 12px serif", "1px solid red inherit", "italic small-caps bold 12px serif", "thin dashed blue transparent",
+	"1px 2px 3px 4px 5px", "red none repeat scroll 0 0", "underline overline dotted red"}
 var styleEnums = [][]string{{"red", "blue"}, {"center", "left"}, {"12px", "1"}}
 var styleRes = []string{`^[a-z]+$`, `^[0-9]+px$`, `^#[0-9a-f]{3}$`}
 var styleFns = []string{"digits", "short", "noparen", "true", "false"}
@@ -81,7 +87,15 @@ type Vocab struct {
 	URLs       []string
 	StyleProps []string
 	StyleVals  []string
+	HotProps   []string // style properties the recipe itself allows
 }
+
+var shorthandProps = map[string]bool{"font": true, "border": true, "padding": true, "background": true, "outline": true,
+	"list-style": true, "border-top": true, "text-decoration": true, "margin": true}
+
+var multiTokenVals = []string{"1px 2px 3px 4px", "italic bold 12px serif", "1px solid red inherit", "italic small-caps bold 12px serif",
+	"thin dashed blue transparent", "1px 2px 3px 4px 5px", "red none repeat scroll 0 0", "underline overline dotted red",
+	"1px 2px solid red", "comic sans extra bold", "1px 3px solid red", "bold italic large serif"}
 
 // GenOpts biases the swarm towards what a property needs.
 type GenOpts struct {
@@ -297,8 +311,11 @@ func GenRecipe(r *RNG, opt GenOpts) Recipe {
 	if feature(0.2) {
 		add(Op{K: "AllowElementsContent", Names: subset(r, []string{"script", "style", "iframe", "title", "noscript", "object"}, 1, 2)})
 	}
-	if feature(0.15) {
+	if feature(0.15 + 0.25*opt.WantCallback) {
 		add(Op{K: "AllowDataURIImages"})
+		if feature(0.8) {
+			add(Op{K: "AllowAttrs", Names: []string{"src"}, Scope: "els", Els: []string{"img"}})
+		}
 	}
 	if feature(opt.WantCallback * 0.7) {
 		add(Op{K: "RewriteSrc", Fn: r.Pick([]string{"proxy", "addq"})})
@@ -348,6 +365,7 @@ func VocabOf(rc Recipe, fresh string) Vocab {
 	addURL, urls := set()
 	addSP, sps := set()
 	addSV, svs := set()
+	addHP, hps := set()
 	var pats []string
 	for _, o := range rc.Ops {
 		switch o.K {
@@ -366,6 +384,7 @@ func VocabOf(rc Recipe, fresh string) Vocab {
 			}
 		case "AllowStyles":
 			addSP(o.Names...)
+			addHP(o.Names...)
 			addEl(o.Els...)
 			addAt("style")
 			if o.ElRe != "" {
@@ -405,7 +424,32 @@ func VocabOf(rc Recipe, fresh string) Vocab {
 	addSP(styleProps...)
 	addSP("-webkit-color", "COLOR", "mso-width")
 	addSV(styleVals...)
-	return Vocab{Els: els(), Attrs: ats(), Vals: vals(), URLs: urls(), StyleProps: sps(), StyleVals: svs()}
+	return Vocab{Els: els(), Attrs: ats(), Vals: vals(), URLs: urls(), StyleProps: sps(), StyleVals: svs(), HotProps: hps()}
+}
+
+// Themed narrows a vocabulary to a few names and values, so that the same element, URL,
+// attribute value or style value occurs many times within one input and across the inputs
+// of a plan: content-keyed caches and "last value" memos only misbehave on repeats.
+func (v Vocab) Themed(r *RNG) Vocab {
+	pick := func(xs []string, lo, hi int) []string {
+		if len(xs) == 0 {
+			return xs
+		}
+		return subset(r, xs, lo, hi)
+	}
+	t := Vocab{
+		Els:        pick(v.Els, 2, 5),
+		Attrs:      pick(v.Attrs, 2, 5),
+		Vals:       pick(v.Vals, 2, 4),
+		URLs:       pick(v.URLs, 2, 4),
+		StyleProps: pick(v.StyleProps, 2, 4),
+		StyleVals:  pick(v.StyleVals, 2, 4),
+		HotProps:   v.HotProps,
+	}
+	// keep URL- and style-carrying attributes in play
+	t.Attrs = append(t.Attrs, "href", "src", "style")
+	t.Els = append(t.Els, "a", "img")
+	return t
 }
 
 // ---- input generation ----
@@ -487,9 +531,17 @@ func (g *inGen) entityObfuscate(s string) string {
 func (g *inGen) styleValue() string {
 	var sb strings.Builder
 	for i, n := 0, g.r.Range(1, 4); i < n; i++ {
-		sb.WriteString(g.caseMut(g.r.Pick(g.v.StyleProps)))
+		prop := g.r.Pick(g.v.StyleProps)
+		if len(g.v.HotProps) > 0 && g.r.Bool(0.6) {
+			prop = g.r.Pick(g.v.HotProps)
+		}
+		sb.WriteString(g.caseMut(prop))
 		sb.WriteString(g.r.Pick([]string{":", ": ", " : "}))
-		sb.WriteString(g.r.Pick(g.v.StyleVals))
+		if shorthandProps[prop] && g.r.Bool(0.5) {
+			sb.WriteString(g.r.Pick(multiTokenVals))
+		} else {
+			sb.WriteString(g.r.Pick(g.v.StyleVals))
+		}
 		if g.r.Bool(0.1) {
 			sb.WriteString(" !important")
 		}
